@@ -82,10 +82,27 @@ def match_known(prop, viol, known=None):
             continue
         if any(not re.search(r, viol.get("text", ""), re.S) for r in m.get("text", [])):
             continue
-        if "site" in m and not re.search(m["site"], viol.get("site", "")):
-            continue
+        if "site" in m:
+            cm = re.fullmatch(m.get("clause", ".*"), viol.get("clause", ""))
+            pat = m["site"]
+            if cm and cm.groupdict():
+                for g, val in cm.groupdict().items():
+                    pat = pat.replace("{%s}" % g, re.escape(val or ""))
+            if not re.search(pat, viol.get("site", "")):
+                continue
         if "inputs" in m and viol.get("input_digest") not in m["inputs"]:
             continue
+        if "family" in m and not re.fullmatch(m["family"], viol.get("family", "")):
+            continue
+        if "input_pred" in m:
+            # a predicate over the failing input (sup: tensor -> non-zero cells, cfg: extents, meta: generator facts)
+            try:
+                ok = eval(m["input_pred"], {"__builtins__": {}, "sup": viol.get("input_by_tensor", {}), "cfg": viol.get("config", {}),
+                                            "meta": viol.get("meta", {}), "any": any, "all": all, "len": len, "max": max, "min": min})
+            except Exception:
+                ok = False
+            if not ok:
+                continue
         return k
     return None
 
@@ -118,11 +135,14 @@ class Report:
         if len(self.cov["samples"]) < 6:
             self.cov["samples"].append(s)
 
+    def known_hit(self, k, v):
+        self.known_hits.setdefault(k["id"], {"finding": k, "count": 0, "example": v})
+        self.known_hits[k["id"]]["count"] += 1
+
     def violation(self, v):
         k = match_known(self.prop, v)
         if k is not None:
-            self.known_hits.setdefault(k["id"], {"finding": k, "count": 0, "example": v})
-            self.known_hits[k["id"]]["count"] += 1
+            self.known_hit(k, v)
         else:
             self.violations.append(v)
 
